@@ -34,13 +34,15 @@ C = {
  "C05": ("model_checking", "5/C05",
   "E1: World.tla action property FreshIds with the history variable `issued` inherited by clone, invariant IssuedBelowPos; E2: next_id is an action of the bounded instances and "
   "clones replace the object inside the exploration; E3: traces interleave next_id with everything else on originals, clones and reloaded copies, merges and scripts; the lens "
-  "accepts any fresh id, not only the model's choice.",
+  "accepts any fresh id, not only the model's choice. Script deployment is an action of World.tla as well (FreshDeploy: every variable stands for an id that was neither present nor issued, "
+  "two variables never share one); copies are also made with Clone::clone_from; an id returned by an allocator the model holds to be exhausted must still be fresh.",
   TECH + "World.tla with history variable; product exploration with clones; trace validation (lens C05)"),
  "C06": ("model_checking", "5/C06",
   "E1: SodgImpl invariants (slot free iff list empty, occupied slots = groups, reserved lists kept) on scaled slot tables explored to closure; E2: fix-point of the product (a "
   "slot leaked per cycle would keep producing new snapshots for the same abstract state); E3: every GC cycle shape in TLC's transition system pumped 4..40 times with 0/1/7/13 "
   "background groups alive plus 14-groups-alive and 16-member traces and deterministic life-cycles at the limits, validated against the exact model. The invariant behind it "
-  "(tags = member lists, counter = recount, so a list is emptied exactly when its group dies) is proved inductive for all sizes (TLAPS) and at fixed sizes (Apalache).",
+  "(tags = member lists, counter = recount, so a list is emptied exactly when its group dies) is proved inductive for all sizes (TLAPS) and at fixed sizes (Apalache). Sodg!Recoverable / SodgImpl!ImplRecoverable: from "
+  "EVERY reachable state, reading every group out (DrainAll) leaves no group and removes exactly the grouped vertices; the random histories end with that drain and a refill of up to 14 new groups.",
   TECH + "SodgImpl invariants; inductive invariant (TLAPS, Apalache); product closure; pumped-cycle trace validation (lens C06)"),
  "C07": ("exploration", "5/C07",
   "The memory-safety verdict comes from AddressSanitizer watching the harness replay histories (sampled, hence `exploration`): hundreds of short histories that each overstep "
@@ -50,7 +52,8 @@ C = {
  "C08": ("model_checking", "5/C08",
   "E1: World.tla CopyIsExact/Independent; E2: save+load replaces the object at every product state, so every continuation known to the exploration is applied to a reloaded copy; "
   "mismatching paths are re-run side by side (original and copy, same calls) and judged by the mirror lens, so a defect elsewhere is not blamed on save/load; E3: long traces with "
-  "reloads at random points followed by mirrored calls; label values outside the text form and inline/heap data included.",
+  "reloads at random points followed by mirrored calls; label values outside the text form and inline/heap data included. Data of 4 KiB to 17 MiB "
+  "(tokens in the trace), Hex::Vector asked for at any length, confusable label and data values (look-alike characters, trailing TAB / no-break space, +0.0 / -0.0, NaNs).",
   TECH + "product exploration through save+load; mirrored trace validation (lens C08)"),
  "C09": ("fault_enumeration", "5/C09",
   "Image.tla states the crash model (file absent / strict prefix / complete) and TLC checks the layout argument (a schema-driven decoder rejects every strict prefix of every "
@@ -58,12 +61,14 @@ C = {
   "real-limit graphs), each written over a longer earlier file, each cut at EVERY byte position below the file length; load() must return Err.",
   TECH + "complete enumeration of the cut position per image; outcome judged by Trace.tla (lens C09)"),
  "C10": ("model_checking", "5/C10",
-  "As C08 with clone(); additionally every executed transition runs on a clone while the original's complete snapshot is checked to be untouched (independence).",
+  "As C08 with clone(); additionally every executed transition runs on a clone while the original's complete snapshot is checked to be untouched (independence). Copies are made with clone() and, into a handle "
+  "that already holds a graph, with Clone::clone_from; data of 4 KiB to 17 MiB, read before the copy, are read again on both sides.",
   TECH + "product exploration through clone(); independence check on every transition; mirrored trace validation (lens C10)"),
  "C11": ("model_checking", "5/C11",
   "MergeGen.tla enumerates every scenario (two labelled trees, every placement of data incl. already-read data, every `left`), checks the grafting contract on the model for each "
   "(E1) and prints the expected result with read continuations; the harness executes every scenario; the C11 lens of Trace.tla compares modulo the choice of fresh ids; E3: random "
-  "larger trees (ids scattered up to 200) merged and read afterwards.",
+  "larger trees (ids scattered up to 200) merged and read afterwards; trees spanning several groups (17-22 vertices, also as one path 19-21 edges deep), "
+  "left graphs whose capacity leaves exactly as many ids as the merge needs (vertices from next_id()).",
   TECH + "TLC-enumerated merge scenarios with model-level contract; spec->code execution; trace validation (lens C11)"),
  "C12": ("model_checking", "5/C12",
   "MergeGen.tla enumerates right graphs = tree + up to two extra vertices (isolated, with data, or a detached edge), every left tree and `left`; Contract states Ok <=> nothing "
@@ -97,7 +102,7 @@ C = {
   "two objects with the same vertices, edges and data must print identical text.",
   TECH + "read-only observers in the product exploration; facts judged by Trace.tla (lens C18)"),
  "C19": ("model_checking", "5/C19",
-  "E1: MC_Indep.tla, two instances of the model with different N/capacity stepped by the same calls keep the same answers; differential replay: the same call sequence, recorded in "
+  "E1: MC_Indep.tla, two instances of the model with different N/capacity stepped by the same calls keep the same answers, and so do a slice from every vertex and the merge of that slice at every vertex (SlicesSame, MergesSame); differential replay: the same call sequence, recorded in "
   "the smallest configuration and validated by Trace.tla, is replayed twice more there (new processes) and in each larger configuration; complete observation logs must be identical.",
   TECH + "two-instance model check; differential replay of validated traces across configurations and processes"),
  "C20": ("model_checking", "5/C20",
